@@ -39,6 +39,9 @@ CHECKS.update({
    text="Extract.tla defines the reference (least fixpoint of the tree-additive cost over non-subsumed, extractable rows with saturating addition) and transcribes the algorithm; TLC checks CostIsMin, HasCostHasParent, ParentsWellFounded, TermCostIsCost on every e-graph and scan order at the bound, with and without saturating costs; the e-graphs (and the counterexamples found with saturation) are rebuilt on the real engine and every class extracted; the trace module recomputes MinCost on the logged rows and evaluates the returned terms in the logged e-graph."),
  "C14": dict(engine="EggAbs", technique=SESS_TECH + "; container values in the specification; directed in-place-rebuild scenarios; twin runs semi-naive/naive and parallel container rebuild", note=SESS_NOTE + "; Vec/Set/MultiSet/Pair over an eq-sort nested up to 3 levels, no Map", ref="6 (C14)",
    text="Containers are values of EggAbs (contents over least-term class names, re-normalised by MapVal whenever class names change), so two containers equal modulo the current equalities are the same value and rows keyed by them are merged by Close; the trace module rebuilds container values from the logged raw contents, checks that ids inside containers are canonical and that equal contents share one container id, and compares the database after every command; random sessions and directed scenarios (a rule matching through nested contents that only becomes matchable by an in-place rebuild) run under semi-naive, naive and 4-thread/cut-off-0 configurations."),
+ "C16": dict(engine="Table", technique="TLC model checking of Table.tla (append-only buffer with stale marks, hash, staged mutations, compaction, version; ghost keyed map) + replay of its transition cover and seeded long operation sequences on SortedWritesTable / DisplacedTable through the Database API + TLC trace validation (Table_Trace) of every answer",
+   note="one table shape [key, val, ts] sorted by ts with a max merge, keys 0..3; compaction threshold scaled to 1 in the model, real threshold 16 crossed by the long sequences; index-backed reads through RuleSet queries not driven; row order within a timestamp unspecified", ref="6 (C16)",
+   text="Table.tla carries the implementation structure and a ghost keyed map; TLC checks HashConsistent, LookupIsModel, ScanIsModel, SortedByTs, StaleBounded, VersionTracksContent, StagedIsInvisible over all operation sequences at the bound (with compaction inside the bound); the transition cover and long random sequences (serial and 4 threads with cut-offs 0) run on the real tables and after every operation len, full scan, point lookups, constrained scans (Eq/EqConst/Lt/Le/Gt/Ge on key, value and sort column), fast subsets on the sort column and the version are compared with the model."),
 })
 
 NA = {
